@@ -89,4 +89,6 @@ def timeout_configs():
 
 def cert_configs():
     """the TLS configuration as wired (defaultTLSConfig + certwatcher): what clients of several kinds are shown before and after rotations"""
-    return [{'args': [], 'certs': True}, {'args': [], 'certs': True, 'via_env': True}]
+    # (the paths as an operator may legally spell them: canonical, with a "." segment, with a doubled slash, relative)
+    return [{'args': [], 'certs': True}, {'args': [], 'certs': True, 'via_env': True, 'cert_spelling': 'dot'},
+            {'args': [], 'certs': True, 'cert_spelling': 'dslash'}, {'args': [], 'certs': True, 'cert_spelling': 'rel'}]
